@@ -148,6 +148,35 @@ pub fn decimal_sweep(seed: &[u8], max_runs: usize) -> Vec<(String, Vec<u8>)> {
     out
 }
 
+/// DER length bytes at their neighbours: every position that looks like a tag followed by a
+/// short-form length L with the value inside the input gets L-2, L-1, L+1, L+2, 0, 0x7f and the
+/// long-form introducers 0x80, 0x81, 0x84, 0xff — one field at a time (the enclosing lengths stay,
+/// as in a certificate whose inner encoding was written by another tool).
+pub fn der_length_sweep(seed: &[u8], max_fields: usize) -> Vec<(String, Vec<u8>)> {
+    let mut out = Vec::new();
+    let mut fields = 0usize;
+    for i in 0..seed.len().saturating_sub(1) {
+        let (tag, len) = (seed[i], seed[i + 1]);
+        let taggy = matches!(tag, 0x01..=0x06 | 0x0A | 0x0C | 0x13 | 0x14 | 0x16 | 0x17 | 0x18 | 0x30 | 0x31 | 0x80..=0x83 | 0xA0..=0xA3);
+        if !taggy || len >= 0x80 || i + 2 + len as usize > seed.len() {
+            continue;
+        }
+        fields += 1;
+        if fields > max_fields {
+            break;
+        }
+        for v in [len.wrapping_sub(2), len.wrapping_sub(1), len.wrapping_add(1), len.wrapping_add(2), 0, 0x7f, 0x80, 0x81, 0x84, 0xff] {
+            if v == len {
+                continue;
+            }
+            let mut b = seed.to_vec();
+            b[i + 1] = v;
+            out.push((format!("der-length@{}: {len:#04x} -> {v:#04x} (tag {tag:#04x})", i + 1), b));
+        }
+    }
+    out
+}
+
 pub fn truncations(seed: &[u8], r: &mut Rng, sampled: usize) -> Vec<(String, Vec<u8>)> {
     let mut v = Vec::new();
     for l in 0..=64usize.min(seed.len()) {
